@@ -8,6 +8,15 @@
 // through the real Protocol() handler and the reply is read from the stream.
 // The driver logs the reply as abstract addresses; spec/hive/HiveTrace.tla
 // judges it.  No oracle here.
+//
+// Churn: operations "connected", "disconnected", "addpeers", "force" change the
+// topology between requests, and a "find" operation may carry "gates": while the
+// handler stands on its k-th address-book lookup of the request (the lookup of
+// the requester's own record at the start is not counted) the events listed for
+// k are executed.  The handler is held inside a thin wrapper around the real
+// address book that hive2 is given (scheduling only; the lookup itself is the
+// real one).  Such a request is logged as "wbegin", the events (with `during`),
+// then "find" with `conc`.
 package main
 
 import (
@@ -15,6 +24,7 @@ import (
 	"context"
 	"fmt"
 	"io/ioutil"
+	"sync"
 	"time"
 
 	"github.com/gauss-project/aurorafs/pkg/addressbook"
@@ -32,6 +42,7 @@ import (
 	"github.com/gauss-project/aurorafs/pkg/shed"
 	mockstate "github.com/gauss-project/aurorafs/pkg/statestore/mock"
 	"github.com/gauss-project/aurorafs/pkg/subscribe"
+	"github.com/gauss-project/aurorafs/pkg/topology"
 	"github.com/gauss-project/aurorafs/pkg/topology/kademlia"
 	ma "github.com/multiformats/go-multiaddr"
 
@@ -56,6 +67,31 @@ func underlay(class string, bin, id int) (ma.Multiaddr, error) {
 	return nil, fmt.Errorf("unknown underlay class %q", class)
 }
 
+// hookBook is the address book hive2 sees: the real one, with a call-out before every Get.
+type hookBook struct {
+	addressbook.Interface
+	mu    sync.Mutex
+	onGet func(boson.Address)
+}
+
+func (h *hookBook) set(f func(boson.Address)) {
+	h.mu.Lock()
+	h.onGet = f
+	h.mu.Unlock()
+}
+
+func (h *hookBook) Get(overlay boson.Address) (*aurora.Address, error) {
+	h.mu.Lock()
+	f := h.onGet
+	h.mu.Unlock()
+	if f != nil {
+		f(overlay)
+	}
+	return h.Interface.Get(overlay)
+}
+
+func fullMode() aurora.Model { return aurora.NewModel().SetMode(aurora.FullNode) }
+
 func runScenario(sc kit.Scenario, out *kit.Out, signer crypto.Signer) error {
 	space := kadaddr.New(kit.Seed()*104729 + int64(sc.Scn))
 	db, err := shed.NewDB("", &shed.Options{Driver: `leveldb:{"WriteBuffer":65536}`})
@@ -64,7 +100,8 @@ func runScenario(sc kit.Scenario, out *kit.Out, signer crypto.Signer) error {
 	}
 	defer db.Close()
 	ab := addressbook.New(mockstate.NewStateStore())
-	p2ps := p2pmock.New()
+	book := &hookBook{Interface: ab}
+	p2ps := p2pmock.New(p2pmock.WithDisconnectFunc(func(boson.Address, string) error { return nil }))
 
 	reqPar, _ := sc.Par["req"].(map[string]interface{})
 	rb, ri, err := kadaddr.Pair(reqPar["p"])
@@ -77,7 +114,7 @@ func runScenario(sc kit.Scenario, out *kit.Out, signer crypto.Signer) error {
 	}
 	allow := kit.Bool(sc.Par, "allow")
 
-	svc := hive2.New(streamtest.New(), ab, 0, logger)
+	svc := hive2.New(streamtest.New(), book, 0, logger)
 	defer svc.Close()
 	ppm := pingpongmock.New(func(_ context.Context, _ boson.Address, _ ...string) (time.Duration, error) { return 0, nil })
 	kad, err := kademlia.New(space.Base(), ab, svc, p2ps, ppm, nil, nil, db, logger, subscribe.NewSubPub(),
@@ -122,17 +159,89 @@ func runScenario(sc kit.Scenario, out *kit.Out, signer crypto.Signer) error {
 			}
 		case "known":
 			kad.AddPeers(a)
+		case "absent":
+			// a peer the node has a record of but that the topology does not hold (it may join later)
 		default:
 			return fmt.Errorf("unknown peer state %v", pm["s"])
 		}
 	}
 
 	rec := streamtest.New(streamtest.WithProtocols(svc.Protocol()), streamtest.WithBaseAddr(requester))
-	out.Begin(sc.Scn, kit.Ev{"peers": sc.Par["peers"], "req": sc.Par["req"], "allow": allow})
+
+	// the exported view of the topology
+	project := func() kit.Ev {
+		conn, known := [][]int{}, [][]int{}
+		pair := func(a boson.Address) []int {
+			b, i, ok := space.Abstract(a)
+			if !ok {
+				return []int{-1, -1}
+			}
+			return []int{b, i}
+		}
+		_ = kad.EachPeer(func(a boson.Address, _ uint8) (bool, bool, error) {
+			conn = append(conn, pair(a))
+			return false, false, nil
+		}, topology.Filter{})
+		_ = kad.EachKnownPeer(func(a boson.Address, _ uint8) (bool, bool, error) {
+			known = append(known, pair(a))
+			return false, false, nil
+		})
+		return kit.Ev{"conn": conn, "known": known}
+	}
+	out.Begin(sc.Scn, kit.Ev{"peers": sc.Par["peers"], "req": sc.Par["req"], "allow": allow, "st": project()})
+
+	// an event of the churn; during > 0: executed while a request's walk is held on that lookup
+	event := func(op map[string]interface{}, during int) error {
+		name := kit.Str(op, "op")
+		b, i, err := kadaddr.Pair(op["p"])
+		if err != nil {
+			return err
+		}
+		a, err := space.Addr(b, i)
+		if err != nil {
+			return err
+		}
+		ev := kit.Ev{"op": name, "p": []int{b, i}, "err": ""}
+		if during > 0 {
+			ev["during"] = during
+		}
+		var perr error
+		panicked, msg := kit.Guard(func() {
+			switch name {
+			case "connected":
+				if e := kad.Connected(context.Background(), p2p.Peer{Address: a, Mode: fullMode()}, true); e != nil {
+					ev["err"] = e.Error()
+				}
+			case "disconnected":
+				kad.Disconnected(p2p.Peer{Address: a, Mode: fullMode()}, "verif")
+			case "addpeers":
+				kad.AddPeers(a)
+			case "force":
+				if e := kad.DisconnectForce(a, "verif"); e != nil {
+					ev["err"] = e.Error()
+				}
+			default:
+				perr = fmt.Errorf("unknown event %q", name)
+			}
+		})
+		if perr != nil {
+			return perr
+		}
+		ev["panicked"] = panicked
+		if panicked {
+			ev["panic"] = msg
+		}
+		ev["st"] = project()
+		out.Emit(ev)
+		return nil
+	}
 
 	for _, op := range sc.Ops {
-		if kit.Str(op, "op") != "find" {
-			return fmt.Errorf("unknown op %v", op["op"])
+		if name := kit.Str(op, "op"); name != "find" {
+			if err := event(op, 0); err != nil {
+				return err
+			}
+			continue
 		}
 		tb, ti, err := kadaddr.Pair(op["t"])
 		if err != nil {
@@ -152,6 +261,52 @@ func runScenario(sc kit.Scenario, out *kit.Out, signer crypto.Signer) error {
 			posI = []int{}
 		}
 		ev := kit.Ev{"op": "find", "limit": limit, "t": []int{tb, ti}, "pos": posI, "err": "", "umatch": true}
+
+		// gates: hold the handler on its k-th lookup and let the listed events happen
+		type gate struct {
+			k int
+			o map[string]interface{}
+		}
+		gates := []gate{}
+		_, gated := op["gates"]
+		for _, gv := range kit.List(op, "gates") {
+			gm, _ := gv.(map[string]interface{})
+			o, _ := gm["o"].(map[string]interface{})
+			if o == nil {
+				return fmt.Errorf("malformed gate %v", gv)
+			}
+			gates = append(gates, gate{kit.Int(gm, "k"), o})
+		}
+		var gerr error
+		lookups, ran := 0, 0
+		seen := [][]int{}
+		if gated {
+			out.Emit(kit.Ev{"op": "wbegin", "limit": limit, "t": []int{tb, ti}, "pos": posI, "panicked": false, "st": project()})
+			calls, busy := 0, false
+			book.set(func(a boson.Address) {
+				if busy {
+					return
+				}
+				calls++
+				if calls == 1 {
+					return // the handler's lookup of the requester's own record
+				}
+				lookups++
+				if b, i, ok := space.Abstract(a); ok {
+					seen = append(seen, []int{b, i})
+				} else {
+					seen = append(seen, []int{-1, -1})
+				}
+				busy = true
+				for _, g := range gates {
+					if g.k == lookups && gerr == nil {
+						ran++
+						gerr = event(g.o, lookups)
+					}
+				}
+				busy = false
+			})
+		}
 		reply := [][]int{}
 		panicked, msg := kit.Guard(func() {
 			ctx, cancel := context.WithTimeout(context.Background(), 10*time.Second)
@@ -184,11 +339,19 @@ func runScenario(sc kit.Scenario, out *kit.Out, signer crypto.Signer) error {
 				}
 			}
 		})
+		if gated {
+			book.set(nil)
+			if gerr != nil {
+				return gerr
+			}
+			ev["conc"], ev["lookups"], ev["seen"], ev["left"] = true, lookups, seen, len(gates)-ran
+		}
 		ev["reply"] = reply
 		ev["panicked"] = panicked
 		if panicked {
 			ev["panic"] = msg
 		}
+		ev["st"] = project()
 		out.Emit(ev)
 	}
 	return nil
